@@ -167,6 +167,9 @@ def load(header_dir, workdir, exclude_runtime_fns=True):
         if cur and os.path.dirname(os.path.abspath(os.path.join(workdir, cur))) == os.path.abspath(header_dir):
             keep.append(l)
     txt = "\n".join(keep)
+    # attribute specifiers are not declarators: `__attribute__((const)) char* f(T* t);` declares f, not __attribute__
+    txt = re.sub(r"__attribute__\s*\(\((?:[^()]|\((?:[^()]|\([^()]*\))*\))*\)\)", " ", txt)
+    txt = re.sub(r"\[\[[^\[\]]*\]\]", " ", txt)
     typedefs = set(re.findall(r"\}\s*(\w+)\s*;", txt))
     cands = []
     for name in re.findall(r"(?m)^[^\n;{}#]*?\b(\w+)\s*\([^;{}]*\)\s*;", txt):
